@@ -6,8 +6,9 @@
 //! the code already has) report which vertex is expanded when; clock reads and expansions form one
 //! ordered per-thread history which a small reference model of the limit walks: every scheduled
 //! check must happen, must fire exactly when the elapsed time it was given exceeds the limit, and
-//! nothing may be expanded afterwards. Iteration limits are walked the same way; the solution-size
-//! limit is checked through outcomes only (that part is an ordinary input sweep).
+//! nothing may be expanded afterwards. Iteration limits are walked the same way, and so is the
+//! solution-size limit, against a model of the search tree built from the admitted edges of the
+//! expansion events (those two parts are an ordinary input sweep executed inside the simulator).
 
 use super::common::*;
 use crate::driver::{fnv64, Check, ChildResult, Tier, Violation};
@@ -26,6 +27,15 @@ use std::sync::Arc;
 
 pub struct C10;
 
+/// bit of an expansion event's second argument that says "the frontier model admitted this edge"
+const ADMITTED_BIT: u32 = 62;
+fn ev_edge(e: &ProbeEv) -> usize {
+    (e.b & ((1u64 << ADMITTED_BIT) - 1)) as usize
+}
+fn ev_admitted(e: &ProbeEv) -> bool {
+    e.b >> ADMITTED_BIT & 1 == 1
+}
+
 struct ProbeFrontierService {
     inner: Arc<dyn FrontierModelService>,
 }
@@ -42,8 +52,12 @@ impl FrontierModelService for ProbeFrontierService {
 }
 impl FrontierModel for ProbeFrontier {
     fn valid_frontier(&self, edge: &Edge, state: &[StateVar], previous_edge: Option<&Edge>, state_model: &StateModel) -> Result<bool, FrontierModelError> {
-        sim::probe(PROBE_EXPAND, edge.src_vertex_id.0 as u64, edge.edge_id.0 as u64);
-        self.inner.valid_frontier(edge, state, previous_edge, state_model)
+        // (the inner model is a pure table lookup; asked first so that the event can say whether the edge
+        // was admitted: admitted edges are what makes the search tree grow)
+        let r = self.inner.valid_frontier(edge, state, previous_edge, state_model);
+        let admitted = matches!(r, Ok(true)) as u64;
+        sim::probe(PROBE_EXPAND, edge.src_vertex_id.0 as u64, edge.edge_id.0 as u64 | (admitted << ADMITTED_BIT));
+        r
     }
 }
 
@@ -395,22 +409,36 @@ enum Predicted {
 }
 
 /// reference model of the limits, fed the very clock values and expansions the search saw
-fn walk(seg: &Segment, lim: &Limits, exact: bool, size_may_fire: bool) -> Result<(Predicted, u64), String> {
+fn walk(seg: &Segment, lim: &Limits, exact: bool, tree_key: Option<&dyn Fn(&ProbeEv) -> Option<u64>>) -> Result<(Predicted, u64), String> {
     // events up to the "search returned" marker, when there is one (successful searches only): then every
     // monotonic read in what remains belongs to the search
     let end = seg.events.iter().position(|e| e.kind == sim::PROBE_SEARCH_END);
     let ev = &seg.events[..end.unwrap_or(seg.events.len())];
-    walk_from(ev, 0, lim, exact, size_may_fire, &|e: &ProbeEv| e.a, Some(end.is_some())).map(|(p, t, _)| (p, t))
+    walk_from(ev, 0, lim, exact, tree_key, &|e: &ProbeEv| e.a, Some(end.is_some())).map(|(p, t, _)| (p, t))
+}
+
+thread_local! {
+    /// size of the search tree as the reference model saw it when the last walk ended (None: not modelled)
+    static LAST_TREE: std::cell::Cell<Option<u64>> = const { std::cell::Cell::new(None) };
 }
 
 /// walks one search starting at `pos0`; `key` names the vertex an expansion call belongs to (the source
 /// of the edge in a forward search, its destination in a reverse search). Also returns the position
 /// after the last event of this search.
+/// `tree_key`: the reference model of the search tree. The tree gains an entry exactly when an admitted edge
+/// leads to a vertex (other than the search's source) that has no entry yet - the first label of a vertex
+/// always improves on "none" - and never loses one, so its size at every loop turn is the number of distinct
+/// such vertices among the expansion events so far. The function names that vertex for an admitted edge.
+/// None: the tree is not modelled (a configured size limit then makes the natural end undecidable).
 /// `dense`: None = never infer loop turns from clock reads; Some(closed) = with a runtime check at every
 /// loop turn, a monotonic read where an expansion would be is the next turn's check (the turn popped a
 /// dead-end vertex); `closed` says that the history ends where the search ended.
-fn walk_from(ev: &[&ProbeEv], pos0: usize, lim: &Limits, exact: bool, size_may_fire: bool, key: &dyn Fn(&ProbeEv) -> u64, dense: Option<bool>) -> Result<(Predicted, u64, usize), String> {
+fn walk_from(ev: &[&ProbeEv], pos0: usize, lim: &Limits, exact: bool, tree_key: Option<&dyn Fn(&ProbeEv) -> Option<u64>>, key: &dyn Fn(&ProbeEv) -> u64, dense: Option<bool>) -> Result<(Predicted, u64, usize), String> {
     let mut pos = pos0;
+    let size_may_fire = lim.size.is_some() && tree_key.is_none();
+    let mut tree: std::collections::BTreeSet<u64> = Default::default();
+    let mut source: Option<u64> = None;
+    LAST_TREE.with(|c| c.set(None));
     // the first monotonic read after the instance was built is the search's start time
     while pos < ev.len() && ev[pos].kind != K_MONO {
         if ev[pos].kind == PROBE_EXPAND {
@@ -454,6 +482,14 @@ fn walk_from(ev: &[&ProbeEv], pos0: usize, lim: &Limits, exact: bool, size_may_f
                 reasons.push("iteration");
             }
         }
+        if let (Some(limit), true) = (lim.size, tree_key.is_some()) {
+            if tree.len() as u64 > limit {
+                reasons.push("size");
+            }
+        }
+        if tree_key.is_some() {
+            LAST_TREE.with(|c| c.set(Some(tree.len() as u64)));
+        }
         if !reasons.is_empty() {
             // the explanation re-evaluates every model: the runtime model reads the clock once more at a
             // scheduled turn, and if the budget is exhausted by then the error may name it as well
@@ -483,7 +519,15 @@ fn walk_from(ev: &[&ProbeEv], pos0: usize, lim: &Limits, exact: bool, size_may_f
         // the expansion of this loop turn (one group of frontier calls for one vertex)
         if pos < ev.len() && ev[pos].kind == PROBE_EXPAND {
             let v = key(ev[pos]);
+            if source.is_none() {
+                source = Some(v); // the first vertex a search pops is its source: it never gets a tree entry
+            }
             while pos < ev.len() && ev[pos].kind == PROBE_EXPAND && key(ev[pos]) == v {
+                if let Some(k) = tree_key.and_then(|f| f(ev[pos])) {
+                    if Some(k) != source {
+                        tree.insert(k);
+                    }
+                }
                 pos += 1;
             }
             i += 1;
@@ -682,7 +726,7 @@ fn judge(case: &Case, obs: &Obs) -> (Vec<Violation>, BTreeMap<String, u64>, bool
             if let (Some(seg), true) = (by_qid.get(&qid), exact) {
                 let fwd_key = |e: &ProbeEv| e.a;
                 let edges = &w.edges;
-                let rev_key = |e: &ProbeEv| edges.get(e.b as usize).map_or(u64::MAX, |x| x.1 as u64);
+                let rev_key = |e: &ProbeEv| edges.get(ev_edge(e)).map_or(u64::MAX, |x| x.1 as u64);
                 let other_error = resp.get("error").is_some() && !terminated;
                 let mut judge_sub = |label: &str, r: Result<(Predicted, u64, usize), String>, last: bool, v: &mut Vec<Violation>| -> Option<usize> {
                     match r {
@@ -721,10 +765,10 @@ fn judge(case: &Case, obs: &Obs) -> (Vec<Violation>, BTreeMap<String, u64>, bool
                 }
                 // (a query that is answered by another error - no destination, no path - may not have started
                 // either search: the monotonic reads in its history are progress reporting, not a search)
-                let first = if other_error && !seg.events.iter().any(|e| e.kind == PROBE_EXPAND) { Ok((Predicted::Unknown, 0, 0)) } else { walk_from(&seg.events, 0, &lim, exact, false, &fwd_key, None) };
+                let first = if other_error && !seg.events.iter().any(|e| e.kind == PROBE_EXPAND) { Ok((Predicted::Unknown, 0, 0)) } else { walk_from(&seg.events, 0, &lim, exact, None, &fwd_key, None) };
                 if let Some(end) = judge_sub("forward", first, false, &mut v) {
                     if !other_error && exact_rev {
-                        let second = walk_from(&seg.events, end, &lim, exact_rev, false, &rev_key, None);
+                        let second = walk_from(&seg.events, end, &lim, exact_rev, None, &rev_key, None);
                         judge_sub("reverse", second, true, &mut v);
                     }
                 }
@@ -764,11 +808,27 @@ fn judge(case: &Case, obs: &Obs) -> (Vec<Violation>, BTreeMap<String, u64>, bool
         }
         // --- history-level clauses: walk the per-thread event stream with the reference model ---
         if let Some(seg) = by_qid.get(&qid) {
-            let size_may_fire = lim.size.is_some();
-            match walk(seg, &lim, exact, size_may_fire) {
+            // the search tree is modelled from the admitted edges of the expansion events (forward search:
+            // an admitted edge gives its destination vertex a tree entry). Turn-counting limits need every
+            // loop turn to be visible; the size limit does not (a turn that expands nothing leaves the tree as it is)
+            let edges = &w.edges;
+            let tree_key = |e: &ProbeEv| -> Option<u64> { if ev_admitted(e) { edges.get(ev_edge(e)).map(|x| x.1 as u64) } else { None } };
+            let turns_matter = lim.iterations.is_some() || !lim.runtimes.is_empty();
+            let walked = walk(seg, &lim, exact || !turns_matter, Some(&tree_key));
+            let modelled_tree = LAST_TREE.with(|c| c.get());
+            if lim.size.is_some() {
+                bump("size_limit_walked", 1);
+            }
+            match walked {
                 Err(d) => v.push(Violation { class: "limit-model-mismatch".into(), detail: format!("query {} (termination {}): {}", qid, case.world.termination, d) }),
                 Ok((Predicted::Terminated(reasons), turn)) => {
                     bump("walk_terminated", 1);
+                    if reasons.contains(&"size") {
+                        bump("size_limit_exhausted", 1);
+                        if reasons.len() == 1 {
+                            bump("size_limit_exhausted_alone", 1);
+                        }
+                    }
                     if reasons.contains(&"runtime") {
                         bump("runtime_budget_exhausted", 1);
                         if turn > 0 {
@@ -784,7 +844,7 @@ fn judge(case: &Case, obs: &Obs) -> (Vec<Violation>, BTreeMap<String, u64>, bool
                             }
                         }
                         for s in &said {
-                            if !reasons.contains(s) && !reasons.iter().any(|r| r.trim_end_matches('?') == *s) && *s != "size" {
+                            if !reasons.contains(s) && !reasons.iter().any(|r| r.trim_end_matches('?') == *s) {
                                 v.push(Violation { class: "wrong-limit-named".into(), detail: format!("query {}: the error names the {} limit which was not exhausted (exhausted: {:?})", qid, s, reasons) });
                             }
                         }
@@ -794,6 +854,11 @@ fn judge(case: &Case, obs: &Obs) -> (Vec<Violation>, BTreeMap<String, u64>, bool
                     bump("walk_completed", 1);
                     if terminated {
                         v.push(Violation { class: "terminated-without-exhaustion".into(), detail: format!("query {} was stopped ({}) although no limit was exhausted at any scheduled check", qid, err) });
+                    }
+                    // self-check of the tree model against what a returned search reports (the edge-oriented
+                    // wrapper adds entries of its own afterwards)
+                    if let (Some(m), Some(s), false) = (modelled_tree, resp.get("tree_size_count").and_then(|x| x.as_u64()), terminated || case.family == "edge" || resp.get("error").is_some()) {
+                        bump(if m == s { "tree_model_agrees_with_reported_size" } else { "tree_model_differs_from_reported_size" }, 1);
                     }
                 }
                 Ok((Predicted::Unknown, _)) => bump("walk_undecided", 1),
@@ -846,7 +911,7 @@ impl Check for C10 {
     fn assumptions(&self) -> Vec<String> {
         vec![
             "the exact walk is only applied in worlds without dead-end vertices; elsewhere loop turns that expand nothing are invisible and only the outcome clauses are checked".into(),
-            "the solution-size limit is judged by outcomes (stopped iff the unlimited tree is larger than the limit); 'never exceeds the limit by more than one out-degree' is only observed on searches that return".into(),
+            "the solution-size limit is walked with a reference model of the search tree (the distinct vertices reached through admitted edges so far; agreement with the size every returned search reports is counted in reach): it must fire at the first loop turn that finds the tree larger than the limit, nothing may be expanded afterwards - which is 'never exceeds the limit by more than one vertex's out-degree' - and it may not fire earlier; sub-searches of k-shortest-paths are not walked under size limits".into(),
             "k-shortest-path sub-searches (family ksp: single-via, two sub-searches) are only walked at their start and turn-0 check reads: each sub-search must measure its budget from its own start".into(),
             "iteration and size clauses contain no clock or schedule: that part is an input sweep executed inside the simulator".into(),
         ]
